@@ -5,6 +5,20 @@ Updates seeded/*/meta.json from the output of tools/verify_seeded.sh and of tool
 per (dir, round); run logs are taken in the order given: the first verdict for a dir is 'first run', any later
 one 'after strengthening'."""
 import json, os, re, sys
+def rnd(d):
+    """seeding round of seeded/<ID>-m<k>: two regressions per property and round"""
+    return (int(d.split("-m")[1]) + 1) // 2
+
+
+COMMIT = {1: "5f3ff6d", 2: "5f3ff6d", 3: "39c4358", 4: "8fa01c8", 5: "d7ec9de"}
+ROUND_TEXT = {
+    1: "",
+    2: "; second round: additionally told the one-line titles of the first-round regressions of the same property and asked for rarer triggers",
+    3: "; third round: told the one-line titles of the four earlier regressions of the same property and asked for regressions made of two cooperating changes or depending on state left by earlier calls / on the order of calls",
+    4: "; fourth round: told the titles of the six earlier regressions of the same property and asked for regressions on growth/capacity/boundary paths of data structures, in rarely used entry points or argument combinations, or arithmetic slips",
+    5: "; fifth round: told the titles of the eight earlier regressions of the same property and asked for regressions on error / cleanup paths, in the interplay of two features, or visible only for the second or later element / object / call of a kind",
+}
+
 args = sys.argv[1:]
 sep = args.index("--")
 vlogs, rlogs = args[:sep], args[sep + 1:]
@@ -12,13 +26,13 @@ ver = {}
 for fn in vlogs:
     for l in open(fn):
         t = l.split()
-        if t and re.match(r"C\d\d-m\d", t[0]) and "demo_clean=0" in l and "apply=ok" in l and "100% tests passed" in l:
+        if t and re.match(r"C\d\d-m\d+$", t[0]) and "demo_clean=0" in l and "apply=ok" in l and "100% tests passed" in l:
             ver[t[0]] = l.strip()
 runs = {}
 for fn in rlogs:
     cur = None
     for l in open(fn):
-        m = re.match(r"== (?:seeded/)?(C\d\d-m\d)", l)
+        m = re.match(r"== (?:seeded/)?(C\d\d-m\d+)", l)
         if m:
             cur = m.group(1)
             continue
@@ -38,10 +52,8 @@ for d in sorted(os.listdir(root)):
     demo = "demo.sh" if os.path.exists(os.path.join(root, d, "demo.sh")) else "demo.c"
     meta.update({
         "breaks_property": pid,
-        "origin": "independent sub-agent that was given only the property text and a scratch worktree of /repo at commit %s (nothing from /verif)" % ("8fa01c8" if d[-1] in "78" else "39c4358" if d[-1] in "56" else "5f3ff6d")
-                  + ("; second round: additionally told the one-line titles of the first-round regressions of the same property and asked for rarer triggers" if d[-1] in "34" else "")
-                  + ("; third round: told the one-line titles of the four earlier regressions of the same property and asked for regressions made of two cooperating changes or depending on state left by earlier calls / on the order of calls" if d[-1] in "56" else "")
-                  + ("; fourth round: told the titles of the six earlier regressions of the same property and asked for regressions on growth/capacity/boundary paths of data structures, in rarely used entry points or argument combinations, or arithmetic slips" if d[-1] in "78" else ""),
+        "origin": "independent sub-agent that was given only the property text and a scratch worktree of /repo at commit %s (nothing from /verif)" % COMMIT[rnd(d)]
+                  + ROUND_TEXT[rnd(d)],
         "needs_to_manifest": "see notes.md (written by the sub-agent)",
         "demonstration": demo,
         "confirmed_by": "tools/verify_seeded.sh seeded/%s : patch applies to /repo HEAD; repository suite 48/48 with the patch; demonstration exits 0 without and non-zero with the patch" % d,
